@@ -29,7 +29,7 @@ def ref_archs_dv(desc):
     for nodes, cc in ref_archs(desc):
         dvs = [d for d in desc.dvs if d.name in nodes and d.options and d.name in identity_dvs(desc, nodes)]
         for combo in itertools.product(*[range(len(d.options)) for d in dvs]):
-            out.add((nodes, cc, tuple((d.name, i) for d, i in zip(dvs, combo))))
+            out.add((nodes, cc, tuple(sorted((d.name, i) for d, i in zip(dvs, combo)))))
     return out
 
 
@@ -63,7 +63,7 @@ def obs_arch(b, inst, with_dv=False):
         if d.options and d.name in nodes and d.name in keep:
             v = vals.get(b.node[d.name])
             dv.append((d.name, v if v is None else int(v)))
-    return nodes, cc, tuple(dv)
+    return nodes, cc, tuple(sorted(dv))
 
 
 def make_processor(desc, encoder):
